@@ -47,6 +47,13 @@
 (* again; nothing is written to it (ArgsFrame; MC_Priors, MC_PriorHistory).  *)
 (* The mode of a parameter is text found whatever its case (ModeLookup).     *)
 (* Long-lived optimizers: spec/MC_PriorHistory.tla.                          *)
+(*                                                                         *)
+(* Keywords (round 4): every keyword may be left out (the value of the        *)
+(* signature holds) and the width has a linear-space spelling too           *)
+(* (lin_std = 10^e); each keyword stands for itself (BuildK, LogForm,        *)
+(* Complete, OmittedIsSignature; "coupled" is the refuted variant).          *)
+(* Long-lived PRIOR objects (set_bounds, a second object, the caller's       *)
+(* container written to afterwards): spec/MC_PriorObject.tla.                *)
 (***************************************************************************)
 EXTENDS Integers, Sequences, FiniteSets, TLC, Json, Rat, SequencesExt
 
@@ -75,20 +82,42 @@ ZAssumption == /\ \A k \in 1..(UN - 2) : Z[k] < Z[k + 1]
 \* -------------------------------------------------------------- construction
 Lower(bd) == IF Ordering = "minmax" THEN RMin(bd[1], bd[2]) ELSE bd[1]
 Upper(bd) == IF Ordering = "minmax" THEN RMax(bd[1], bd[2]) ELSE bd[2]
-Build(c) ==
-    CASE c.cls = "Uniform"    -> [kind |-> "Uniform", a |-> Lower(c.v1), b |-> Upper(c.v1)]
-      [] c.cls = "LogUniform" ->
-            \* lin_bounds are replaced by their log10 before anything else happens
-            LET bd == IF c.key1 = "lin_bounds" THEN <<Q(c.v1[1]), Q(c.v1[2])>> ELSE c.v1
-            IN  [kind |-> "LogUniform", a |-> Lower(bd), b |-> Upper(bd)]
-      [] c.cls = "Gaussian"   -> [kind |-> "Gaussian", a |-> c.v1, b |-> c.v2]
-      [] c.cls = "LogGaussian" ->
-            [kind |-> "LogGaussian", a |-> IF c.key1 = "lin_mean" THEN Q(c.v1) ELSE c.v1, b |-> c.v2]
+\* Keywords (round 4): every keyword of a constructor is optional and stands for itself.  key1 names the first argument
+\* ("bounds" | "lin_bounds" | "mean" | "lin_mean" | "": left out), key2 the width of the normal kinds ("std" | "lin_std" |
+\* "": left out; lin_std = 10^e carried as its exponent e, like every linear-space argument).  A keyword that is left out
+\* has the value written in the documented signature (SigBounds, SigMean, SigStd; the harness reads the signature and
+\* checks that an object built without the keyword is the object built with that value passed explicitly).
+\* kw = "independent": each keyword is evaluated on its own (the code).  kw = "coupled" is the expected-counterexample
+\* variant: the linear-space spelling of the SECOND argument is honoured only when the first is given in linear space too.
+SigBounds == <<Q(0), Q(1)>>
+SigMean == R(1, 2)
+SigStd == R(1, 4)
+BoundsOf(c) == IF c.key1 = "lin_bounds" THEN <<Q(c.v1[1]), Q(c.v1[2])>> ELSE IF c.key1 = "" THEN SigBounds ELSE c.v1
+MeanOf(c) == IF c.key1 = "lin_mean" THEN Q(c.v1) ELSE IF c.key1 = "" THEN SigMean ELSE c.v1
+StdOfK(kw, c) == IF c.key2 = "lin_std" THEN (IF kw = "coupled" /\ c.key1 # "lin_mean" THEN SigStd ELSE Q(c.v2))
+                 ELSE IF c.key2 = "" THEN SigStd ELSE c.v2
+BuildK(kw, c) ==
+    CASE c.cls = "Uniform"    -> [kind |-> "Uniform", a |-> Lower(BoundsOf(c)), b |-> Upper(BoundsOf(c))]
+      [] c.cls = "LogUniform" -> \* lin_bounds are replaced by their log10 before anything else happens
+                                 [kind |-> "LogUniform", a |-> Lower(BoundsOf(c)), b |-> Upper(BoundsOf(c))]
+      [] c.cls = "Gaussian"   -> [kind |-> "Gaussian", a |-> MeanOf(c), b |-> StdOfK(kw, c)]
+      [] c.cls = "LogGaussian" -> [kind |-> "LogGaussian", a |-> MeanOf(c), b |-> StdOfK(kw, c)]
+Build(c) == BuildK("independent", c)
 
-\* the same call with its linear-space argument replaced by its log10
-LogForm(c) == IF c.key1 = "lin_bounds" THEN [c EXCEPT !.key1 = "bounds", !.v1 = <<Q(c.v1[1]), Q(c.v1[2])>>]
+\* the same call with every linear-space argument replaced by its log10
+LogForm(c) ==
+    LET c1 == IF c.key1 = "lin_bounds" THEN [c EXCEPT !.key1 = "bounds", !.v1 = <<Q(c.v1[1]), Q(c.v1[2])>>]
               ELSE IF c.key1 = "lin_mean" THEN [c EXCEPT !.key1 = "mean", !.v1 = Q(c.v1)]
               ELSE c
+    IN  IF c.key2 = "lin_std" THEN [c1 EXCEPT !.key2 = "std", !.v2 = Q(c.v2)] ELSE c1
+\* the same call with every keyword that was left out written out with the value of the signature
+Complete(c) ==
+    LET c1 == IF c.key1 # "" THEN c
+              ELSE IF c.cls \in {"Uniform", "LogUniform"} THEN [c EXCEPT !.key1 = "bounds", !.v1 = SigBounds]
+              ELSE [c EXCEPT !.key1 = "mean", !.v1 = SigMean]
+    IN  IF c.cls \in {"Gaussian", "LogGaussian"} /\ c.key2 = "" THEN [c1 EXCEPT !.key2 = "std", !.v2 = SigStd] ELSE c1
+LeftOut(c) == (IF c.key1 = "" THEN {IF c.cls \in {"Uniform", "LogUniform"} THEN "bounds" ELSE "mean"} ELSE {})
+              \cup (IF c.cls \in {"Gaussian", "LogGaussian"} /\ c.key2 = "" THEN {"std"} ELSE {})
 
 \* ------------------------------------------------------------------ sampling
 U(k) == R(k, UN)
@@ -220,7 +249,7 @@ InForce(owner, user, mode, bounds) == IF SeenBy(owner, user) = NoPrior THEN Buil
 \* ---------------------------------------------------------------- properties
 Monotone(p) == \A k, j \in Grid(p) : k < j => RLt(Sample(p, k), Sample(p, j))
 OntoSupport(c, p) == p.kind \in UniKinds =>
-    LET bd == IF c.key1 = "lin_bounds" THEN <<Q(c.v1[1]), Q(c.v1[2])>> ELSE c.v1
+    LET bd == BoundsOf(c)
     IN  /\ Sample(p, 0) = RMin(bd[1], bd[2]) /\ Sample(p, UN) = RMax(bd[1], bd[2])
         /\ \A k \in Grid(p) : RLe(p.a, Sample(p, k)) /\ RLe(Sample(p, k), p.b)
 \* inverse CDF: the uniform CDF of the sample is u; the gaussian sample is symmetric about the mean
@@ -241,7 +270,10 @@ TailOrdered == /\ \A i, j \in 1..Len(TailPts) : i < j <=> PtLt(TailPts[i], TailP
 TailSymmetric(p) == p.kind \notin UniKinds =>
     \A x \in TailSet : x.side = "hi" =>
         RSub(TailSample(p, [x EXCEPT !.side = "lo"]), p.a) = RNeg(RSub(TailSample(p, x), p.a))
-LinArgsEquivalent(c) == Build(c) = Build(LogForm(c))
+LinArgsEquivalentK(kw, c) == BuildK(kw, c) = BuildK(kw, LogForm(c))
+LinArgsEquivalent(c) == LinArgsEquivalentK("independent", c)
+\* leaving a keyword out is passing the value of the signature, whatever else is given and in whichever spelling
+OmittedIsSignature(kw, c) == BuildK(kw, c) = BuildK(kw, Complete(c)) /\ (LeftOut(c) = {} <=> Complete(c) = c)
 TextEqualsDirect(c) == /\ \A n \in Spellings[c.cls] : FromText(Text(c, n)) = Build(c)
                        /\ FromText(Text(c, "Foo")) = "error"
                        /\ FromText(Text(c, "Log")) = "error"
